@@ -188,6 +188,13 @@ def catalogue():
         yield _case(M.program("e", M.if_([(p, R(0))], R(1))),
                     [{"a": nan, "b": nan, "c": 1, "d": nan}, {"a": nan, "b": 2, "c": nan, "d": 0}, {"a": 1, "b": nan, "c": 1, "d": nan},
                      {"a": nan, "b": nan, "c": nan, "d": nan}, {"a": 2, "b": 2, "c": 3, "d": 4}, {"a": 5, "b": 2, "c": 3, "d": 4}])
+    # 1c. fields named like constants of other languages (true, false, null ...): ordinary fields, compared by VALUE
+    for nm in ("true", "false", "null", "none", "nan", "inf", "yes", "undefined"):
+        f = M.ident(nm)
+        for p in (M.cmp_(f, "==", M.lit_int("1")), M.cmp_(M.ident("level"), "in", M.tup([f, M.lit_int("7")])), M.not_(M.cmp_(f, "!=", M.lit_int("0"))),
+                  M.and_(M.cmp_(f, ">=", M.lit_int("0")), M.cmp_(f, "<", M.ident("level")))):
+            yield _case(M.program("e", M.if_([(p, R(0))], R(1)), splitters=[nm] if nm in ("true", "null") else None),
+                        [{nm: v, "level": l} for v in (0, 1, 2, 7, 0.0, 1.0, -1) for l in (0, 1, 7, 3)])
     # 2. boolean trees of depth <= 2 over atoms a,b,c (each atom: field == 1) x all truth assignments
     atoms = [M.cmp_(M.ident(n), "==", M.lit_int("1")) for n in "abc"]
     envs = [dict(zip("abc", bits)) for bits in itertools.product([0, 1], repeat=3)]
